@@ -12,6 +12,7 @@ From RB Require Import Wire.DecodeLemmas.
 From RB Require Import Wire.DecodeComplete.
 From RB Require Import Wire.DecodeSoundLemmas.
 From RB Require Import Wire.DecodeTotal.
+From RB Require Import Wire.DecodeSoundT.
 From RB Require Import Wire.DecodeSound.
 
 (* raw validation succeeds exactly when the bytes at the offset are THE encoding of some well-typed, encodable value
@@ -48,9 +49,16 @@ Theorem C03_param_sound : forall be vf t c v c',
 Proof. exact unmarshal_p_sound_spec. Qed.
 Print Assumptions C03_param_sound.
 
-(* typed decoder, for a Rust type whose own nesting fits in the protocol limit at the current depth *)
+(* typed decoder. It counts variants only: [typed_depth_ok c e] asks that the nesting of the Rust type fits on top
+   of the context's depth (udepth c + edepth e <= 64), except for a Variant type, whose content is validated at the
+   context's depth + 1: there the Rust type only has to fit in the limit by itself (edepth e <= 64) *)
+Theorem C03_typed_depth_ok : forall c e,
+  typed_depth_ok c e = match e with EVar _ => edepth e <= MAX_DEPTH | _ => udepth c + edepth e <= MAX_DEPTH end.
+Proof. reflexivity. Qed.
+Print Assumptions C03_typed_depth_ok.
+
 Theorem C03_typed_sound : forall be vf e c v c',
-  wf (erase e) = true -> tys_ok (erase e) = true -> udepth c + edepth e <= MAX_DEPTH ->
+  wf (erase e) = true -> tys_ok (erase e) = true -> typed_depth_ok c e ->
   bytes_ok (ubuf c) -> uoff c <= len (ubuf c) ->
   unmarshal_t vf be e c = Ok (v, c') ->
   wt v (erase e) = true /\ encodable be (uoff c) (udepth c) v = true
@@ -73,7 +81,8 @@ Proof. exact param_exact. Qed.
 Print Assumptions C03_param_exact.
 
 Theorem C03_typed_exact : forall be vf e buf off nf depth v c',
-  wf (erase e) = true -> tys_ok (erase e) = true -> depth + edepth e <= MAX_DEPTH ->
+  wf (erase e) = true -> tys_ok (erase e) = true ->
+  typed_depth_ok {| ubuf := buf; uoff := off; unfds := nf; udepth := depth |} e ->
   bytes_ok buf -> off <= len buf -> fuel_ok vf depth ->
   (unmarshal_t vf be e {| ubuf := buf; uoff := off; unfds := nf; udepth := depth |} = Ok (v, c') <->
    wt v (erase e) = true /\ ety_matches e v = true /\ encodable be off depth v = true /\ fds_below nf v = true
@@ -104,7 +113,7 @@ Print Assumptions C03_agree_param_fds.
 
 (* agreement 2: the typed decoder accepts only what the dynamic decoder accepts, with the same value and position ... *)
 Theorem C03_agree_typed_param : forall be vf vf' e c v c',
-  wf (erase e) = true -> tys_ok (erase e) = true -> udepth c + edepth e <= MAX_DEPTH ->
+  wf (erase e) = true -> tys_ok (erase e) = true -> typed_depth_ok c e ->
   bytes_ok (ubuf c) -> uoff c <= len (ubuf c) -> fuel_ok vf' (udepth c) ->
   unmarshal_t vf be e c = Ok (v, c') ->
   unmarshal_p vf' be (erase e) c = Ok (v, c') /\ ety_matches e v = true.
